@@ -674,3 +674,49 @@ Proof.
   exists l, r''. repeat (split; [assumption|]). assumption.
 Qed.
 Print Assumptions C15_interrupt_next_prio_boost.
+
+(* non-vacuity on the boosted loop (factor 2): two Python tasks queued, run order [0; 1]; the
+   hypotheses of C15_interrupt_next_prio_boost hold for an interrupt of task 1; its new handle 2
+   is put in front of task 0's, and the next loop step delivers the exception to task 1 while
+   task 0 has not run *)
+Example C15_example_interrupt_boost :
+  actions_ok bi_s0 bi_acts /\ InvC qok_boostc None bi_s /\
+  let s' := fst (lib_call 0 (OTaskInterrupt 1 (EUser 1)) bi_s) in
+  lib_call 0 (OTaskInterrupt 1 (EUser 1)) bi_s = (s', LSusp YNone [InSleep0]) /\
+  rq_items (ready bi_s) = [0; 1] /\ rq_items (ready s') = [2; 0] /\
+  geth s' 2 = mkH (HStep 1 (Some (EUser 1))) false /\
+  map fstate_ (futs (run_one s')) = [FPending; FExc (EUser 1)].
+Proof. exact bi_example. Qed.
+Print Assumptions C15_example_interrupt_boost.
+
+(* C15_interrupt_then_yield_any_queue: C15_interrupt_then_yield (identical statement) for every
+   ready queue with QSpec + QNextW - in particular the boosted priority loop (QNextW_boostc): after
+   the whole step of the interrupting task t the head of the run order is the target's handle with
+   the exception, t's own fresh handle is behind it and is t's only handle, and run_one is the
+   target's step.  Second clause: the loop step delivering an accepted interrupt adds no error *)
+Theorem C15_interrupt_then_yield_any_queue :
+  forall qok, QSpec qok -> QNextW qok ->
+  (forall s t t' e s' k,
+     InvC qok (Some t) s -> tdone s t = false ->
+     lib_call t (OTaskInterrupt t' e) s = (s', LSusp YNone [InSleep0]) ->
+     exec t (Call (OTaskInterrupt t' e) k) s = (s', OYield YNone [InSleep0] k) /\
+     let sf := finish_step t s' (OYield YNone [InSleep0] k) <| current := None |> in
+     let hn := length (handles s) in
+     t' <> t /\
+     exists l r'',
+       rq_items (ready sf) = hn :: l /\
+       geth sf hn = mkH (HStep t' (Some e)) false /\
+       geth sf (S hn) = mkH (HStep t None) false /\
+       In (S hn) l /\
+       (forall h, In h l -> task_key sf t' h = false) /\
+       (forall h, In h l -> task_key sf t h = true -> h = S hn) /\
+       tcont_ (gett sf t) = TSusp [InSleep0] k /\
+       rq_popleft (ready sf) = Some (hn, r'') /\ rq_items r'' = l /\
+       run_one sf = step_task t' (Some e) (sf <| ready := r'' |>)) /\
+  (forall c s t t' e s',
+     InvC qok c s -> lib_call t (OTaskInterrupt t' e) s = (s', LSusp YNone [InSleep0]) ->
+     errors s' = errors s /\ errors (run_one s') = errors s).
+Proof.
+  intros qok QS QN. split; [exact (interrupt_then_yieldW qok QS QN)|exact (interrupt_delivery_no_errorW qok QS QN)].
+Qed.
+Print Assumptions C15_interrupt_then_yield_any_queue.
